@@ -32,21 +32,28 @@ def comp(f, xs, cond=None, kind="list"):
     COUNTS["comp"] += 1
     if isinstance(xs, SymSeq):
         COUNTS["symbolic"] += 1
+        c0 = ctx()
+        before = (c0.pos, len(c0.pc))
+        conditional = getattr(xs, "conditional", False)
         if cond is not None:
             c = cond(xs.elem)
-            if c is True:
-                # every element passes (decided for the generic element): no filtering
-                return SymSeq(xs.ident + "'", f(xs.elem), xs.min_len, root=xs.root, perm_of=xs.perm_of)
-            elif c is False:
+            if c is True and not conditional:
+                pass          # every element passes (decided for the generic element, no per-element choice involved)
+            elif c is True:
+                # the generic element was shaped by a per-element choice: it passes, others may not
+                r = SymSeq(xs.ident + "|filter", f(xs.elem), 0, root=xs.root + "|filter", perm_of=xs.perm_of)
+                r.filtered = True
+                r.conditional = True
+                return r
+            elif c is False and conditional:
                 # the generic element of the FILTERED sequence is an arbitrary element that passes the
                 # filter: a path on which the generic element fails it says nothing about the result
                 raise pyvc.Infeasible()
             else:
                 raise Unsupported("comprehension filter on a symbolic sequence is not decided")
-            r = SymSeq(xs.ident + "|filter", f(xs.elem), 0, root=xs.root + "|filter", perm_of=xs.perm_of)
-            r.filtered = True
-            return r
-        return SymSeq(xs.ident + "'", f(xs.elem), xs.min_len, root=xs.root, perm_of=xs.perm_of)
+        r = SymSeq(xs.ident + "'", f(xs.elem), xs.min_len, root=xs.root, perm_of=xs.perm_of)
+        r.conditional = conditional or (c0.pos, len(c0.pc)) != before
+        return r
     if isinstance(xs, SymPerms):
         COUNTS["symbolic"] += 1
         if cond is not None:
@@ -117,11 +124,14 @@ def for_app(target, f, xs, method="append"):
         r = comp(f, xs)
         if method == "extend":
             if not isinstance(r.elem, list):
-                raise Unsupported("extend-loop whose chunk is not a concrete-length list")
+                raise Unsupported("extend-loop whose chunk is not a list")
             r.flatten = True      # the sequence is the concatenation of the chunks
         return r
     for x in xs:
-        getattr(target, method)(f(x))
+        if method == "extend":
+            extend(target, f(x))
+        else:
+            getattr(target, method)(f(x))
     return target
 
 
